@@ -126,6 +126,15 @@ func (res *Resource) unpackZipArchive() error {
 		_ = archiveReader.Close()
 	}()
 
+	// Refuse archives with entries that would be extracted outside of the tmp dir.
+	for _, file := range archiveReader.File {
+		dstPath := filepath.Join(tmpDir, filepath.FromSlash(file.Name))
+		if !strings.HasPrefix(dstPath, tmpDir+string(filepath.Separator)) {
+			err = fmt.Errorf("archive file %s would be extracted outside of the destination", file.Name)
+			return err
+		}
+	}
+
 	// Save all files to the tmp dir.
 	for _, file := range archiveReader.File {
 		err = copyFromZipArchive(
